@@ -23,4 +23,4 @@ _NOT_BUILT = "check not built yet in this round of work (design in DESIGN.md §5
 NOT_APPLICABLE = {f"C{i:02d}": _NOT_BUILT for i in range(1, 21) if f"C{i:02d}" not in PROPS}
 
 # commits in /repo that add verif-tagged hooks
-HOOK_COMMITS = ["710d639", "0437c86", "b1f3fc3"]
+HOOK_COMMITS = ["710d639", "0437c86", "b1f3fc3", "f8d7807"]
